@@ -503,16 +503,30 @@ func runC17Sequence(c *fw.Ctx) {
 	// a peer's last-round message that passes verification but makes the round END IN AN
 	// IDENTIFIABLE-ABORT ROUND when it is finalized (toy protocol: wrong view digest); delivered in
 	// place of the next genuine message. false: that message carries no view digest.
+	echoNext := false // the next tampered delivery flips the echo hash in the header instead
 	deliverTampered := func() bool {
 		tm := tamperViewDigest(rec.inbound[next])
+		what := "a wrong view digest"
+		if echoNext {
+			echoNext = false
+			tm = nil
+			if bv := rec.inbound[next].BroadcastVerification; len(bv) > 0 {
+				mm := *rec.inbound[next]
+				mm.BroadcastVerification = append([]byte{}, bv...)
+				mm.BroadcastVerification[0] ^= 1
+				tm, what = &mm, "a wrong echo hash in its header"
+			}
+		}
 		if tm == nil {
 			return false
 		}
-		trace = append(trace, fmt.Sprintf("Accept(m%d with a wrong view digest)", next))
+		trace = append(trace, fmt.Sprintf("Accept(m%d with %s)", next, what))
 		if call("Accept", func() { h.Accept(tm) }) {
 			return true
 		}
-		c.Fault("message_that_fails_at_finalize", 1)
+		if what == "a wrong view digest" {
+			c.Fault("message_that_fails_at_finalize", 1)
+		}
 		var v interface{}
 		var e error
 		if call("Result", func() { v, e = h.Result() }) {
@@ -530,7 +544,18 @@ func runC17Sequence(c *fw.Ctx) {
 		return true
 	}
 	for k := 0; k < ops; k++ {
-		switch c.S.Draw(9, "op") {
+		switch c.S.Draw(10, "op") {
+		case 9:
+			// a genuine message whose echo hash (an unauthenticated header field quoting the sender's view
+			// of the previous round) differs from the local one: the session must end with an error, once
+			if next >= nGenuine {
+				continue
+			}
+			echoNext = true
+			if !deliverTampered() {
+				continue
+			}
+			c.Fault("message_with_wrong_echo_hash", 1)
 		case 8:
 			if next >= nGenuine || !deliverTampered() {
 				continue
@@ -649,6 +674,16 @@ func runC17Sequence(c *fw.Ctx) {
 	for next < nGenuine {
 		if st.phase != 0 {
 			c.Fault("late_message_after_end", 1)
+		}
+		if st.phase == 0 && len(rec.inbound[next].BroadcastVerification) > 0 && c.S.Draw(6, "tamper-echo") == 5 {
+			// (often the LAST awaited message of its round: the handler finalizes right after judging it)
+			echoNext = true
+			deliverTampered()
+			c.Fault("message_with_wrong_echo_hash", 1)
+			if len(c.Res.Violations) > 0 || !check("after "+trace[len(trace)-1]) {
+				return
+			}
+			continue
 		}
 		if st.phase == 0 && tamperViewDigest(rec.inbound[next]) != nil && c.S.Draw(3, "tamper-digest") == 2 {
 			deliverTampered()
